@@ -411,6 +411,8 @@ def load_known():
   """known_findings.json plus known_findings.d/*.json (committed, never written at run time)"""
   import glob
   out = []
+  if os.environ.get("VERIF_IGNORE_KNOWN"):     # debugging aid only (never set by a registered command): report listed findings as violations
+    return out
   paths = [os.path.join(env.VERIF, "known_findings.json")] + sorted(glob.glob(os.path.join(env.VERIF, "known_findings.d", "*.json")))
   for p in paths:
     if os.path.exists(p):
